@@ -114,7 +114,7 @@ def f_circuit_forward(case):
 
 
 def st_mprog(N, max_len):
-    meas = st.integers(1, N).flatmap(lambda n: st.fixed_dictionaries({'kind': st.just('measure'), 'qubits': st.permutations(list(range(N))).map(lambda p: list(p[:n]))}))
+    meas = st.integers(1, N).flatmap(lambda n: st.fixed_dictionaries({'kind': st.just('measure'), 'qubits': st.permutations(list(range(N))).map(lambda p: list(p[:n])), 'via': st.sampled_from(['measure', 'take'])}))
     g = st.integers(0, 2).flatmap(lambda i: meas if i == 0 else gen.st_gate(N))      # (flatmap: one_of would flatten the weights away)
     return st.lists(g, min_size=1, max_size=max_len)
 
